@@ -600,7 +600,44 @@ def rule_angle_range(ctx):
     ctx.covered('R11.9', 'range of reb_mod2pi by interval evaluation (%s); %d call sites in tools.c rely on it' % (rng, callers), 1 + callers, floor=5)
 
 
+def rule_mass_guard_agreement(ctx):
+    """R11.10: a particle can be described by elements around a primary only if the primary has mass. The constructor
+    (reb_particle_from_orbit_err) and the read-back (reb_orbit_from_particle_err) both reject a massless primary by
+    comparing a quantity with TINY; it must be the same quantity - otherwise the constructor accepts a particle (a massive
+    body around a massless primary passes a test of G (m + M)) whose orbit cannot be read back."""
+    from . import extents
+    tu = cfront.load_tu('tools.c')
+    got = {}
+    for fname in ('reb_particle_from_orbit_err', 'reb_orbit_from_particle_err'):
+        fn = tu.func(fname)
+        L = extents.lets(fn)
+        for ifs in walk(cfront.body(fn)):
+            if ifs.get('kind') != 'IfStmt':
+                continue
+            c = strip(ifs['inner'][0])
+            if not (c.get('kind') == 'BinaryOperator' and c.get('opcode') in ('<', '<=')):
+                continue
+            rhs = strip(c['inner'][1], casts=True)
+            try:
+                tiny = rhs.get('kind') == 'FloatingLiteral' and float(rhs['value']) < 1e-300
+            except (ValueError, KeyError):
+                tiny = False
+            if not tiny:
+                continue
+            q = extents.canon(extents.resolve(render(c['inner'][0]), L))
+            sets_err = any(is_assign(e) and 'err' in render(e['inner'][0]) for e in walk(ifs['inner'][1]))
+            if sets_err and ('.m' in q or q.endswith('m')) and fname not in got:
+                got[fname] = (q, line_of(ifs))
+    anchor(len(got) == 2, 'massless-primary tests (quantity < TINY) of the orbit constructor and of the read-back')
+    a, b = got['reb_particle_from_orbit_err'], got['reb_orbit_from_particle_err']
+    if a[0] != b[0]:
+        ctx.report('R11.10', 'mass-guard', 'src/tools.c:%s reb_particle_from_orbit_err / src/tools.c:%s reb_orbit_from_particle_err' % (a[1], b[1]),
+                   'the constructor rejects a massless primary by testing %s, the read-back by testing %s: inputs that pass the one and fail the other give particles whose orbit cannot be read back' % (a[0], b[0]))
+    ctx.covered('R11.10', 'massless-primary guard: constructor and read-back test the same quantity (%s)' % b[0], 2, floor=2)
+
+
 def run(ctx):
+    rule_mass_guard_agreement(ctx)
     rule_angle_range(ctx)
     rule_pericentre_time(ctx)
     rule_components(ctx)
